@@ -152,6 +152,24 @@ def recheck(pid, log):
     return modules, None
 
 
+def source_state(pid):
+    """sha256 of every file the property is anchored in (properties.jsonl), as it stands in the repository under test, and
+    the files that differ from the pinned state (source_pins.json: the sources the model was last validated against)"""
+    files = []
+    for line in open(os.path.join(VERIF, "properties.jsonl")):
+        d = json.loads(line)
+        if d["id"] == pid:
+            files = d.get("anchors", {}).get("files", [])
+    cur = {}
+    for f in files:
+        path = os.path.join(REPO, f)
+        cur[f] = hashlib.sha256(open(path, "rb").read()).hexdigest() if os.path.exists(path) else None
+    pins_path = os.path.join(VERIF, "source_pins.json")
+    pins = json.load(open(pins_path)) if os.path.exists(pins_path) else {}
+    changed = sorted(f for f in cur if pins.get(f) != cur[f])
+    return cur, changed
+
+
 # ----------------------------------------------------------------------------------------------
 # step 3: model driver
 # ----------------------------------------------------------------------------------------------
@@ -270,7 +288,14 @@ def main(argv=None):
     for c in corpus:
         cases.append(c)
     ncorpus = len(cases)
-    for c in prop.gen(rnd, tier):
+    # a change in an anchored source file since the model was last pinned is not a violation, but it is the moment to
+    # look harder: the quick tier then samples at the size of the thorough tier
+    src_sha, src_changed = source_state(pid)
+    gen_tier = tier
+    if src_changed and tier == "quick":
+        gen_tier = "thorough"
+        log(f"[{pid}] anchored source changed since it was pinned ({', '.join(src_changed)}): sampling at thorough size")
+    for c in prop.gen(rnd, gen_tier):
         cases.append(c)
     log(f"[{pid}] {len(cases)} cases ({ncorpus} corpus)")
 
@@ -417,6 +442,7 @@ def main(argv=None):
     ev = {
         "property_id": pid,
         "tier": tier,
+        "sampling": gen_tier,
         "seed": seed,
         "level": "proof",
         "coverage": {
@@ -431,6 +457,8 @@ def main(argv=None):
             ] + list(getattr(prop, "TRUSTED", [])),
             "theorems": discharged,
             "leanchecker_modules": rechecked,
+            "anchored_source_sha256": src_sha,
+            "anchored_source_changed_since_pin": src_changed,
             "unproved": problems,
             "evaluations": len(cases),
             "distinct_nontrivial": len(distinct),
